@@ -657,7 +657,30 @@ macro_rules! family {
                     let eo = ao == bo;
                     let co = ao.cmp(&bo);
                     let h = trace(a) == trace(b);
-                    if e == eo && c == co {
+                    // the same two texts as views into ONE buffer (a prefix or a suffix of the other
+                    // operand's memory): where a value was sliced from must not matter
+                    let mut alias_bad = false;
+                    {
+                        let (la, lb) = ($a.len(), $b.len());
+                        if lb <= la && $a[..lb] == $b[..] {
+                            if let Some(Ok(b2)) = conv(&$a[..lb]).map(|x| $T::new(x)) {
+                                if (a == b2) != e || (b2 == a) != e || a.cmp(b2) != c || trace(b2) != trace(b) { alias_bad = true }
+                            }
+                        }
+                        if lb <= la && $a[la - lb..] == $b[..] {
+                            if let Some(Ok(b2)) = conv(&$a[la - lb..]).map(|x| $T::new(x)) {
+                                if (a == b2) != e || (b2 == a) != e || a.cmp(b2) != c { alias_bad = true }
+                            }
+                        }
+                        if la <= lb && $b[..la] == $a[..] {
+                            if let Some(Ok(a2)) = conv(&$b[..la]).map(|x| $T::new(x)) {
+                                if (a2 == b) != e || (b == a2) != e || a2.cmp(b) != c { alias_bad = true }
+                            }
+                        }
+                    }
+                    if alias_bad {
+                        Some(format!("ALIAS-DIFFERS {} {}", b01(e), ord(c)))
+                    } else if e == eo && c == co {
                         Some(format!("{} {} {}", b01(e), ord(c), b01(h)))
                     } else {
                         Some(format!("OWNED-DIFFERS {} {} {} {}", b01(e), ord(c), b01(eo), ord(co)))
